@@ -284,3 +284,112 @@ def register(GROUPS, c2g, incs, REPO, HERE, STRUCTS, Group):
         return g, [f, h]
 
     GROUPS["Array"] = gen_array
+
+    # ------------------------------------------------------------------ group ArrayPermC08
+    def gen_array_perm(tmp):
+        """sc_array_permute cut into slices (tools/c2g/slicelib.py): the set-up (size of the temporary element, carray, esize,
+        count), the choice of newind (in place / private copy with its sc_malloc and memcpy sizes), the two loop conditions, the
+        statement in front of the inner loop, ONE iteration of the inner loop (the three memcpy calls with destination, source
+        and byte count, the new zj, zk and the store into newind) and the statements behind it.  Everything else in the function
+        must be a no-op (SC_ASSERT), a declaration without initialiser or an sc_free: the shape is checked here, so that a
+        statement added anywhere, another callee or another loop makes the group FAIL (tie broken) instead of being ignored."""
+        import slicelib as sl
+        g = Group("ArrayPermC08")
+        f = os.path.join(REPO, "src", "sc_containers.c")
+        objs = c2g.clang_ast(f, "sc_array_", incs(tmp))
+        P = "sc_array_permute"
+        F = c2g.find_function(objs, P)
+        body = [c for c in F["inner"] if c.get("kind") == "CompoundStmt"][0]
+        stm = list(body.get("inner", []))
+        probe = sl.SliceT()
+
+        def bad(msg):
+            raise c2g.Unsupported("%s: %s" % (P, msg))
+
+        def calls(n):
+            return [sl.callee_name(x) for x in sl.find_nodes(n, lambda x: x.get("kind") == "CallExpr")]
+
+        def hoist(ss):
+            """`x = (++y);` is `++y; x = y;`"""
+            out = []
+            for s_ in ss:
+                if s_.get("kind") == "BinaryOperator" and s_.get("opcode") == "=":
+                    r = sl.strip(s_["inner"][1])
+                    if r.get("kind") == "UnaryOperator" and r.get("opcode") in ("++", "--") and not r.get("isPostfix"):
+                        out.append(r)
+                        out.append(dict(s_, inner=[s_["inner"][0], r["inner"][0]]))
+                        continue
+                out.append(s_)
+            return out
+
+        def add(t_i, want_outs=None):
+            t, i = t_i
+            if want_outs is not None and i.get("outputs") != want_outs:
+                bad("%s: outputs %s, expected %s" % (i["name"], i.get("outputs"), want_outs))
+            g.add(t, i)
+
+        allc = calls(F)
+        cnt = dict((c, allc.count(c)) for c in set(allc))
+        if cnt != {"sc_malloc": 2, "sc_free": 3, "sc_array_index": 2, "memcpy": 4}:
+            bad("calls %s (expected 2 sc_malloc, 3 sc_free, 2 sc_array_index, 4 memcpy and nothing else)" % sorted(cnt.items()))
+        for c in sl.find_nodes(F, lambda x: x.get("kind") == "CallExpr" and sl.callee_name(x) == "sc_array_index"):
+            a0, a1 = sl.strip(c["inner"][1]), sl.strip(c["inner"][2])
+            if a0.get("referencedDecl", {}).get("name") != "newindices" or a1.get("kind") != "IntegerLiteral" or a1.get("value") != "0":
+                bad("sc_array_index is not called as (newindices, 0)")
+        loops = sl.find_nodes(F, lambda x: x.get("kind") in ("WhileStmt", "ForStmt", "DoStmt") and not probe.is_noop(x))
+        wl = [x for x in loops if x.get("kind") == "WhileStmt"]
+        if len(wl) != 2 or len([x for x in loops if x.get("kind") == "ForStmt"]) != 0:
+            bad("expected exactly the two nested while loops")
+        outer, inner = wl
+        if outer not in stm:
+            bad("the outer loop is not a statement of the function body")
+        ob = list(outer["inner"][1].get("inner", []))
+        if inner not in ob:
+            bad("the inner loop is not a statement of the outer loop's body")
+        k0 = stm.index(outer)
+        live = [s_ for s_ in stm[:k0] if not probe.is_noop(s_)]
+        decls = [s_ for s_ in live if s_.get("kind") == "DeclStmt"]
+        ifs = [s_ for s_ in live if s_.get("kind") == "IfStmt"]
+        inits = [s_ for s_ in live if s_.get("kind") == "BinaryOperator"]
+        if len(decls) + len(ifs) + len(inits) != len(live) or len(ifs) != 2:
+            bad("statements in front of the loop are not declarations, the two tests and the assignments to zi, zj")
+        withinit = [d for d in decls if any(isinstance(c, dict) for v in d["inner"] for c in v.get("inner", []))]
+        add(sl.emit_block(withinit, "c8_permute_setup", ["esize", "count", "carray", "temp", "*ghosts"], P, effects=("sc_malloc",),
+                          effect_skip_args={"sc_malloc": (0,)}, want_params=["array_elem_size", "sc_malloc_ret", "array_array", "array_elem_count"],
+                          comment="(esize, count, carray, temp, byte count of the sc_malloc of temp)"),
+            ["esize", "count", "carray", "temp", "sc_malloc_arg1"])
+        # if (!count) { SC_FREE (temp); return; }
+        add(sl.emit_cond(ifs[0]["inner"][0], "c8_permute_empty", P, want_params=["count"]))
+        eb = ifs[0]["inner"][1]
+        if len(ifs[0]["inner"]) != 2 or calls(eb) != ["sc_free"] or not sl.find_nodes(eb, lambda x: x.get("kind") == "ReturnStmt") or \
+                sl.find_nodes(eb, lambda x: x.get("kind") in ("BinaryOperator", "UnaryOperator", "CompoundAssignOperator") and x.get("opcode") in ("=", "++", "--")):
+            bad("the branch for an empty array is not { sc_free; return; }")
+        add(sl.emit_block([ifs[1]], "c8_permute_newind", ["newind", "*ghosts"], P, effects=("sc_malloc", "memcpy"), symbolic_calls=("sc_array_index",),
+                          effect_skip_args={"sc_malloc": (0,)}, effect_called=True,
+                          want_params=["keepperm", "sc_array_index_ret", "count", "sc_malloc_ret", "sc_array_index2_ret"],
+                          comment="newind: the storage of newindices itself, or (keepperm) a private copy: (newind, sc_malloc called, its byte count, "
+                                  "memcpy called, dest, src, byte count); sc_array_index_ret = sc_array_index (newindices, 0)"),
+            ["newind", "sc_malloc_called", "sc_malloc_arg1", "memcpy_called", "memcpy_arg0", "memcpy_arg1", "memcpy_arg2"])
+        add(sl.emit_block(inits, "c8_permute_init", ["zi", "zj"], P, want_params=[]))
+        add(sl.emit_cond(outer["inner"][0], "c8_permute_outer_cond", P, want_params=["zi", "count"]))
+        add(sl.emit_cond(inner["inner"][0], "c8_permute_inner_cond", P, want_params=["zk", "zi"]))
+        k = ob.index(inner)
+        add(sl.emit_block(ob[:k], "c8_permute_outer_pre", ["zk"], P, elem_arrays=("newind",), want_params=["newind_zj"],
+                          comment="in front of the inner loop: zk = newind[zj]"))
+        ib = list(inner["inner"][1].get("inner", []))
+        add(sl.emit_block(ib, "c8_permute_inner_step", ["zj", "zk", "newind_zj", "*ghosts"], P, effects=("memcpy",), elem_arrays=("newind",),
+                          want_params=["temp", "carray", "esize", "zk", "zi", "newind_zk"],
+                          comment="one iteration of the inner loop: (zj, zk, value stored into newind[zj] (the NEW zj), then destination, source, "
+                                  "byte count of the three memcpy calls in source order); newind_zk = newind[zk] on entry"),
+            ["zj", "zk", "newind_zj"] + ["memcpy%s_arg%d" % (q, j) for q in ("", "2", "3") for j in range(3)])
+        add(sl.emit_block(hoist(ob[k + 1:]), "c8_permute_outer_post", ["newind_zi", "zi", "zj"], P, elem_arrays=("newind",), want_params=["zi"],
+                          comment="behind the inner loop: (value stored into newind[zi] (the OLD zi), zi, zj)"))
+        # behind the outer loop: only sc_free calls (the private copy of newind if keepperm, temp)
+        for s_ in stm[k0 + 1:]:
+            if probe.is_noop(s_):
+                continue
+            if [c for c in calls(s_) if c != "sc_free"] or sl.find_nodes(s_, lambda x: x.get("opcode") in ("=", "++", "--", "+=", "-=")):
+                bad("a statement behind the loop is not an sc_free")
+        return g, [f]
+
+    GROUPS["ArrayPermC08"] = gen_array_perm
